@@ -35,6 +35,7 @@ type OutObl struct {
 }
 
 type Unit struct {
+	Rebound string // non-empty: the contract was verified under this renaming of identifiers (see rebind.go)
 	Name  string
 	Props []string
 	Layer string
@@ -257,6 +258,38 @@ func qualName(b *Block) string {
 }
 
 func (kc *kernelCtx) runFunc(b *Block) *Unit {
+	u := kc.runFunc0(b)
+	if !hasBindingErr(u) {
+		return u
+	}
+	fn := kc.w.allFuncs(b.Pkg)[b.Name]
+	if fn == nil {
+		return u
+	}
+	typeName := ""
+	outer := fn
+	for outer.Parent() != nil {
+		outer = outer.Parent()
+	}
+	if outer.Signature.Recv() != nil {
+		typeName = recvTypeName(outer)
+	}
+	if c := b.first("type"); c != nil {
+		typeName = strings.TrimSpace(c.Text)
+	}
+	var extra []*Block
+	if ts := kc.types[typeName]; ts != nil {
+		extra = append(extra, ts.Block)
+	}
+	for k, lb := range kc.loops {
+		if strings.HasPrefix(k, b.Pkg+"::"+b.Name) {
+			extra = append(extra, lb)
+		}
+	}
+	return kc.tryRebind(u, b, b.Name, typeName, availFor(fn), extra, func(k2 *kernelCtx, nb *Block) *Unit { return k2.runFunc0(nb) })
+}
+
+func (kc *kernelCtx) runFunc0(b *Block) *Unit {
 	u := &Unit{Name: qualName(b), Props: b.props(), Layer: "K"}
 	fns := kc.w.allFuncs(b.Pkg)
 	fn := fns[b.Name]
